@@ -138,7 +138,8 @@ impl Property for C08 {
          capture on (token cheating possible) and off, with succeeding and failing scripts and (every fifth scenario) an error exit (a name \
          below a regular file on the command line, jobs of the other names still running), optionally \
          with a second command contending for the same targets so that lock waits give up tokens; \
-         select-stall faults make child exits and token arrivals coincide; oracle at every scheduling \
+         select-stall faults make child exits and token arrivals coincide (drawn stalls, and in a quarter of \
+         the scenarios four follow-up runs that hold back one chosen wake-up each until nothing else can run); oracle at every scheduling \
          step: scripts inside a work section + bytes in the token pipe <= N (+1 per live redo-log); at \
          the end: no 'expected N tokens' self-check failure, exit status as the scripts dictate, and \
          exactly K bytes left in an inherited pipe; non-trivial = >=1 preemption and >=1 script; distinct \
@@ -342,6 +343,32 @@ impl Property for C08 {
             },
             meta,
         }
+    }
+    fn follow_ups(&self, case: &Case, first: &RunRecord) -> Vec<Case> {
+        // wake-up plans (see c09::wake_plans): the judged command group is run
+        // again with one select/poll wake-up of a redo process held back until
+        // nothing else can run, for a few wake-ups spread over the recorded run
+        if case.opts.stall_at.is_some() || case.seed % 4 != 1 {
+            return Vec::new();
+        }
+        let jg = case.meta.get("judged_group").and_then(|x| x.as_u64()).unwrap_or(0) as usize;
+        let g = match first.groups.iter().find(|g| g.step_idx == jg) {
+            Some(g) => g,
+            None => return Vec::new(),
+        };
+        let m = g.wake_count;
+        let n = 4u64;
+        if m == 0 {
+            return Vec::new();
+        }
+        let stride = (m / n).max(1);
+        (0..n.min(m))
+            .map(|j| {
+                let mut c = case.clone();
+                c.opts.stall_at = Some((jg, j * stride + case.seed % stride));
+                c
+            })
+            .collect()
     }
     fn observer(&self, case: &Case) -> Box<dyn Observer> {
         Box::new(TokenObserver {
